@@ -138,6 +138,25 @@ namespace details {
             };
         }
 
+        /*
+         * probe, whether a write to an attribute would be permitted for the given connection
+         */
+        static attribute_access_arguments check_write(
+            const client_characteristic_configuration& cc,
+            const connection_security_attributes& cs,
+            void* server )
+        {
+            return attribute_access_arguments{
+                attribute_access_type::write,
+                0,
+                0,
+                0,
+                cc,
+                cs,
+                server
+            };
+        }
+
         static constexpr attribute_access_arguments compare_128bit_uuid( const std::uint8_t* uuid )
         {
             return attribute_access_arguments{
